@@ -162,6 +162,19 @@ func runC44(c *Ctx) {
 		}(), "Close must go through closeKnown")
 	}
 
+	// unexported helpers of the connection that touch the frame writer themselves (writePayload …): a call
+	// of one of them is a writer access of the caller
+	wrHelpers := map[*ssa.Function]bool{}
+	for _, f := range scope {
+		if !isUnexportedHelper(f) || f.Signature.Recv() == nil {
+			continue
+		}
+		for range callsIn(f, func(nm string, cc *ssa.CallCommon) bool {
+			return cc.IsInvoke() && strings.HasSuffix(PathOf(cc.Value), ".wr")
+		}) {
+			wrHelpers[f] = true
+		}
+	}
 	// (2) closed-check before touching the writer
 	for _, name := range []string{"WritePacket", "Write", "BufferPayload", "bufferPacket"} {
 		fn := c.MustFunc(pkgNetmc + ":(*minecraftConn)." + name)
@@ -183,6 +196,9 @@ func runC44(c *Ctx) {
 				recv = PathOf(cc.Args[0])
 			}
 			m := methodName(cc)
+			if g := staticCallee(cc); g != nil && wrHelpers[g] && g != fn && recv == fn.Params[0].Name() && m != "bufferPacket" {
+				return true
+			}
 			return strings.HasSuffix(recv, ".wr") || ((m == "BufferPacket" || m == "bufferPacket" || m == "Flush") && recv == fn.Params[0].Name())
 		}) {
 			if _, isDefer := ci.(*ssa.Defer); isDefer {
@@ -221,13 +237,21 @@ func runC44(c *Ctx) {
 	// (3) writer errors reach closeOnWriteErr
 	type wsite struct{ fn, callee string }
 	for _, w := range []wsite{{"Flush", "Flush"}, {"Write", "Write"}, {"bufferPacket", "WritePacket"}, {"BufferPayload", "Write"}} {
-		fn := c.P.Func(pkgNetmc + ":(*minecraftConn)." + w.fn)
-		if fn == nil {
+		root := c.P.Func(pkgNetmc + ":(*minecraftConn)." + w.fn)
+		if root == nil {
 			continue
 		}
-		for _, ci := range callsIn(fn, func(nm string, cc *ssa.CallCommon) bool {
-			return cc.IsInvoke() && cc.Method.Name() == w.callee && strings.HasSuffix(PathOf(cc.Value), ".wr")
-		}) {
+		var sites []ssa.CallInstruction
+		for _, part := range deepFuncs(root, 1) {
+			if part != root && !wrHelpers[part] {
+				continue
+			}
+			sites = append(sites, callsIn(part, func(nm string, cc *ssa.CallCommon) bool {
+				return cc.IsInvoke() && cc.Method.Name() == w.callee && strings.HasSuffix(PathOf(cc.Value), ".wr")
+			})...)
+		}
+		for _, ci := range sites {
+			fn := ci.Parent()
 			call := ci.(*ssa.Call)
 			ok := false
 			// (a) deferred closure that calls closeOnWriteErr(err) installed before the write
